@@ -313,6 +313,45 @@ def _replace_node(root, old, new):
     return False
 
 
+def _forward_temp_lists(fn):
+    """`T = []` ... `T.append(E)` ... `for v in T: X.append(v)` with T used for nothing else and X untouched in between:
+    the elements go straight into X."""
+    changed = True
+    while changed:
+        changed = False
+        for owner, fld in [(o, f_) for n in ast.walk(fn) for o, f_ in _bodies(n)]:
+            stmts = getattr(owner, fld)
+            for j, lp in enumerate(stmts):
+                if not (isinstance(lp, ast.For) and isinstance(lp.iter, ast.Name) and isinstance(lp.target, ast.Name) and len(lp.body) == 1 and not lp.orelse):
+                    continue
+                b = lp.body[0]
+                if not (isinstance(b, ast.Expr) and isinstance(b.value, ast.Call) and isinstance(b.value.func, ast.Attribute) and b.value.func.attr == "append"
+                        and len(b.value.args) == 1 and isinstance(b.value.args[0], ast.Name) and b.value.args[0].id == lp.target.id and is_pure(b.value.func.value)):
+                    continue
+                t, x = lp.iter.id, b.value.func.value
+                init = [i for i, s_ in enumerate(stmts[:j]) if isinstance(s_, ast.Assign) and len(s_.targets) == 1 and isinstance(s_.targets[0], ast.Name)
+                        and s_.targets[0].id == t and isinstance(s_.value, ast.List) and not s_.value.elts]
+                if len(init) != 1:
+                    continue
+                i0 = init[0]
+                uses = [n for n in ast.walk(fn) if isinstance(n, ast.Name) and n.id == t]
+                between = [n for s_ in stmts[i0 + 1:j] for n in ast.walk(s_)]
+                appends = [c for c in between if isinstance(c, ast.Call) and isinstance(c.func, ast.Attribute) and c.func.attr == "append" and isinstance(c.func.value, ast.Name) and c.func.value.id == t]
+                xroots = {n.id for n in ast.walk(x) if isinstance(n, ast.Name)} - {"self"}
+                if len(uses) != 2 + len(appends) or any(isinstance(n, ast.Name) and n.id in xroots for n in between) and xroots:
+                    continue
+                if ast.unparse(x) in {ast.unparse(n) for n in between if isinstance(n, (ast.Attribute, ast.Name))}:
+                    continue
+                for c in appends:
+                    c.func.value = copy.deepcopy(x)
+                del stmts[j]
+                del stmts[i0]
+                changed = True
+                break
+            if changed:
+                break
+
+
 def _expand_extend(fn):
     counter = _fresh
 
@@ -559,6 +598,8 @@ def _propagate_pure(fn):
             {x.arg for f_ in ast.walk(fn) if isinstance(f_, _FUNCS) for x in (f_.args.vararg, f_.args.kwarg) if x}
         for owner, fld in [(o, f_) for n in ast.walk(fn) for o, f_ in _bodies(n)]:
             stmts = getattr(owner, fld)
+            if isinstance(owner, ast.Try) and fld == "body":
+                continue  # a lookup made under a handler stays under it
             for i, s in enumerate(stmts):
                 if not (isinstance(s, ast.Assign) and len(s.targets) == 1 and isinstance(s.targets[0], ast.Name)):
                     continue
@@ -1011,17 +1052,64 @@ def _keyerror_to_membership(fn):
     def f(stmts):
         out = []
         for s in stmts:
-            if isinstance(s, ast.Try) and len(s.body) == 1 and len(s.handlers) == 1 and not s.orelse and not s.finalbody and s.handlers[0].name is None \
+            if isinstance(s, ast.Try) and len(s.body) == 1 and len(s.handlers) == 1 and not s.finalbody and s.handlers[0].name is None \
                     and s.handlers[0].type is not None and ast.unparse(s.handlers[0].type) == "KeyError":
                 sub = only_pure_and_sub(s.body[0])
                 if sub is not None:
                     hb = [x for x in s.handlers[0].body if not isinstance(x, ast.Pass)]
-                    out.append(ast.If(test=ast.Compare(left=copy.deepcopy(sub.slice), ops=[ast.In()], comparators=[copy.deepcopy(sub.value)]), body=s.body, orelse=hb))
+                    # the `else` block runs after a successful lookup, outside the handler's protection - as it does after the test
+                    out.append(ast.If(test=ast.Compare(left=copy.deepcopy(sub.slice), ops=[ast.In()], comparators=[copy.deepcopy(sub.value)]), body=s.body + list(s.orelse), orelse=hb))
                     continue
             out.append(s)
         return out
 
     _rewrite_bodies(fn, f)
+
+
+# ---- R29 / R30 / R31 ----------------------------------------------------------------------------------------------------------
+
+def _search_idioms(fn):
+    """`return next((E for x in IT if C), D)` is the search loop `for x in IT: if C: return E` / `return D` (D pure);
+    `isinstance(x, (A, B))` is `isinstance(x, A) or isinstance(x, B)` (x pure); `all(P for x in IT)` in a truth context is
+    `not [x for x in IT if not P]`."""
+    def f(stmts):
+        out = []
+        for s in stmts:
+            v = s.value if isinstance(s, ast.Return) else None
+            if isinstance(v, ast.Call) and isinstance(v.func, ast.Name) and v.func.id == "next" and len(v.args) == 2 and not v.keywords \
+                    and isinstance(v.args[0], ast.GeneratorExp) and len(v.args[0].generators) == 1 and not v.args[0].generators[0].is_async and is_pure(v.args[1]):
+                g = v.args[0].generators[0]
+                inner = [ast.Return(value=v.args[0].elt)]
+                for c in reversed(g.ifs):
+                    inner = [ast.If(test=c, body=inner, orelse=[])]
+                out.append(ast.For(target=g.target, iter=g.iter, body=inner, orelse=[]))
+                for n in ast.walk(out[-1].target):
+                    if isinstance(n, ast.Name):
+                        n.ctx = ast.Store()
+                out.append(ast.Return(value=v.args[1]))
+                continue
+            out.append(s)
+        return out
+
+    _rewrite_bodies(fn, f)
+    for n in list(ast.walk(fn)):
+        if isinstance(n, ast.Call) and isinstance(n.func, ast.Name) and n.func.id == "isinstance" and len(n.args) == 2 and not n.keywords \
+                and isinstance(n.args[1], ast.Tuple) and len(n.args[1].elts) >= 2 and is_pure(n.args[0]) and all(is_pure(e) for e in n.args[1].elts):
+            new = ast.BoolOp(op=ast.Or(), values=[ast.Call(func=ast.Name(id="isinstance", ctx=ast.Load()), args=[copy.deepcopy(n.args[0]), e], keywords=[]) for e in n.args[1].elts])
+            n.__class__ = ast.BoolOp
+            n.__dict__.clear()
+            n.__dict__.update(new.__dict__)
+        elif isinstance(n, ast.Call) and isinstance(n.func, ast.Name) and n.func.id == "all" and len(n.args) == 1 and not n.keywords \
+                and isinstance(n.args[0], ast.GeneratorExp) and len(n.args[0].generators) == 1 and not n.args[0].generators[0].ifs:
+            g = n.args[0].generators[0]
+            comp = ast.ListComp(elt=copy.deepcopy(g.target), generators=[ast.comprehension(target=g.target, iter=g.iter, ifs=[ast.UnaryOp(op=ast.Not(), operand=n.args[0].elt)], is_async=0)])
+            for x in ast.walk(comp.elt):
+                if isinstance(x, ast.Name):
+                    x.ctx = ast.Load()
+            new = ast.UnaryOp(op=ast.Not(), operand=comp)
+            n.__class__ = ast.UnaryOp
+            n.__dict__.clear()
+            n.__dict__.update(new.__dict__)
 
 
 # ---- R13: `if a or b: X` with X leaving -> `if a: X` / `if b: X` ----------------------------------------------------------
@@ -1207,9 +1295,11 @@ def normal_form(fn, signatures: Optional[Dict[str, List[str]]] = None, helpers: 
     g = copy.deepcopy(fn)
     g.decorator_list = []
     _strip(g)
+    _keyerror_to_membership(g)
     _propagate_pure(g)   # before conditional expressions become statements: `f = A if c else B` hoisted out of a loop goes back in
     for _ in range(5):
         before = ast.dump(g)
+        _search_idioms(g)
         _nnf(g)
         _keyerror_to_membership(g)
         _expand_ifexp(g)
@@ -1224,6 +1314,7 @@ def normal_form(fn, signatures: Optional[Dict[str, List[str]]] = None, helpers: 
         _expand_setdefault(g)
         _hoist_comprehensions(g)
         _expand_extend(g)
+        _forward_temp_lists(g)
         _inline_temps(g)
         _split_tuple_assign(g)
         _coalesce_copies(g)
